@@ -31,6 +31,9 @@ func checkC02(p *Prog, c *Check) {
 	c02SQL(p, c)
 	c02Sorter(p, c)
 	c02Shares(p, c)
+	// the HTTP trigger endpoint bypasses every release check; it is closed by the read-only switch,
+	// which only works if the operator's setting reaches the core (shared with C18)
+	configPass(p, c, "C18-R5")
 }
 
 func c02Channel(p *Prog, c *Check) {
